@@ -221,7 +221,7 @@ theorem accept_only_authentic {E : Env} {n : Node} {from_ : Addr} {idx : Nat} {d
   unfold Session.decodeRemaining Session.getDecKey at hrem
   simp only [hr, if_true] at hrem
   obtain ⟨rec, hm, hk, hn, ha, hc, _⟩ := decodeRemaining_key_inv hrem
-  exact ⟨rec, hm, h.plain, hk, ha, by rw [ha, hc]; exact hdg, hn⟩
+  exact ⟨rec, hm, h.plain, hwf, hk, ha, by rw [ha, hc]; exact hdg, hn⟩
 
 /-- a table filled by `Session.encode` calls of the sessions `S` only -/
 def ProducedBy (t : Aead) (S : List Session) : Prop :=
@@ -452,10 +452,10 @@ theorem group_accept_only_authentic {E : Env} {n : Node} {from_ : Addr} {c : Can
     {h : PacketHdr} (hb : BytesOK dg) (hd : decodeStage E n from_ dg = .groupNew c h p) :
     ∃ f src, GroupKeyFor E.fabs h.plain f c.gid c.key ∧ c.fabIdx = f.fabIdx ∧ c.nodeId = f.nodeId ∧
       E.gsid c.key = h.plain.sessId ∧ GroupAuthentic E.t c.key dg h.plain src := by
-  obtain ⟨rest, src, hdg, _, _, hgrp, hsrc, hc, hrem⟩ := groupNew_inv hb hd
+  obtain ⟨rest, src, hdg, hwf, _, hgrp, hsrc, hc, hrem⟩ := groupNew_inv hb hd
   obtain ⟨f, hk, h1, h2, h3⟩ := cand_spec hc
   obtain ⟨rec, hm, hkey, hn, ha, hct, _⟩ := decodeRemaining_key_inv hrem
-  exact ⟨f, src, hk, h1, h2, h3, hsrc, hgrp, rec, hm, hkey, ha, by rw [ha, hct]; exact hdg, hn⟩
+  exact ⟨f, src, hk, h1, h2, h3, hwf, hsrc, hgrp, rec, hm, hkey, ha, by rw [ha, hct]; exact hdg, hn⟩
 
 /-- **Transplants are rejected.** Take any encryption `rec0` that was really made and deliver its
 cipher text behind any header bytes. If the key of `rec0` is none of the keys the node holds for
